@@ -367,7 +367,7 @@ Proof.
     + rewrite <- app_assoc. exact Ep.
     + rewrite app_length, rev_length. cbn. lia.
     + unfold no_lf. rewrite forallb_forall in *. intros x Hx. apply Hno. apply in_rev. exact Hx.
-    + rewrite Ep at 2. unfold count_lf.
+    + rewrite Ep. unfold count_lf.
       replace (rev l2 ++ x0a :: rev l1) with ((rev l2 ++ [x0a]) ++ rev l1) by (rewrite <- app_assoc; reflexivity).
       rewrite (filter_app lf (rev l2 ++ [x0a]) (rev l1)), app_length.
       assert (Z : length (filter lf (rev l1)) = 0).
@@ -388,13 +388,13 @@ Lemma slice_0 s n : slice s 0 n = firstn n s.
 Proof. unfold slice. rewrite Nat.sub_0_r. reflexivity. Qed.
 
 (* the shape of the input around the clamped index *)
-Lemma around_index s idx :
+Lemma around_index (s : bytes) idx :
   idx < length s -> exists b rest', s = firstn idx s ++ b :: rest' /\ nth_error s idx = Some b.
 Proof.
   intro H. destruct (nth_error s idx) as [b|] eqn:E; [|apply nth_error_None in E; lia].
-  apply nth_error_split in E as (l1 & l2 & Es & Hl). exists b, l2. split; [|].
-  - rewrite Es at 2. rewrite <- Hl, firstn_app, firstn_all, Nat.sub_diag. cbn. rewrite app_nil_r. exact Es.
-  - rewrite Es, nth_error_app2 by lia. rewrite Hl, Nat.sub_diag. reflexivity.
+  apply nth_error_split in E as (l1 & l2 & Es & Hl). exists b, l2. subst idx. subst s. split.
+  - rewrite firstn_app, firstn_all, Nat.sub_diag. cbn. rewrite app_nil_r. reflexivity.
+  - reflexivity.
 Qed.
 
 Lemma slices_of_split q cl b rest' :
@@ -420,6 +420,25 @@ Proof. unfold chars_count. rewrite filter_app, app_length. reflexivity. Qed.
 Lemma count_chars_is s : count_chars s = chars_count s.
 Proof. reflexivity. Qed.
 
+Definition tp_body (input : bytes) (index : nat) : nat * nat :=
+    let safe_index := Nat.min index (length input - 1) in
+    let column_offset := index - safe_index in
+    let index := safe_index in
+    let nl := option_map (fun nl => index - nl - 1)
+                (find_index is_lf (rev (slice input 0 index))) in
+    let line_start := match nl with Some nl => nl + 1 | None => 0 end in
+    let line := length (filter is_lf (slice input 0 line_start)) in
+    let column :=
+      if utf8_valid_b (slice input line_start (S index))
+      then chars_count (slice input line_start (S index)) - 1
+      else if utf8_valid_b (slice input line_start index)
+      then chars_count (slice input line_start index)
+      else index - line_start in
+    (line, column + column_offset).
+
+Lemma translate_position_ne s i : s <> [] -> translate_position s i = tp_body s i.
+Proof. destruct s; [congruence|reflexivity]. Qed.
+
 (* what translate_position computes, in terms of the split of the prefix before the anchor *)
 Lemma translate_position_shape s i :
   s <> [] ->
@@ -443,14 +462,14 @@ Proof.
   rewrite Hpl in Hq.
   exists q, cl, b, rest'. repeat split; auto.
   - rewrite <- Ep. exact Es.
-  - unfold translate_position. destruct s as [|b0 s0] eqn:Es0; [congruence|]. rewrite <- Es0 in *.
-    fold idx. rewrite slice_0.
+  - rewrite translate_position_ne by exact Hne. unfold tp_body. cbv zeta.
+    fold idx. rewrite !slice_0.
     assert (Hidxq : idx = length q + length cl).
     { rewrite <- Hpl. rewrite Ep at 1. apply app_length. }
     rewrite <- Hq.
     assert (Ess : s = (q ++ cl) ++ b :: rest') by (rewrite <- Ep; exact Es).
     destruct (slices_of_split q cl b rest') as (S1 & S2 & S3). cbv zeta in S1, S2, S3.
-    rewrite <- Ess in S1, S2, S3. rewrite Hidxq. rewrite S1, S2, S3.
+    rewrite <- Ess in S1, S2, S3. rewrite slice_0 in S1. rewrite Hidxq. rewrite S1, S2, S3.
     f_equal. f_equal.
     destruct (utf8_valid_b (cl ++ [b])); [reflexivity|].
     destruct (utf8_valid_b cl); [reflexivity|]. lia.
@@ -483,7 +502,7 @@ Proof.
   assert (Hskip : skipn (length q) s = cl ++ b :: rest').
   { rewrite Es, <- app_assoc, skipn_app, skipn_all, Nat.sub_diag. reflexivity. }
   destruct (valid_split s (length q) Hv Hbq ltac:(lia)) as [_ Hvs]. rewrite Hskip in Hvs.
-  rewrite count_chars_is, chars_count_app.
+  change count_chars with chars_count. rewrite (chars_count_app cl (skipn idx (firstn i s))).
   destruct (Nat.eq_dec i (length s)) as [Hend|Hin].
   - (* end of input: the anchor is the last byte *)
     assert (Eidx : idx = length s - 1) by (unfold idx; lia).
